@@ -63,6 +63,9 @@
 #ifndef VP_IMM
 #define VP_IMM 0        /* a writer may hand over an immutable memtable in the middle */
 #endif
+#ifndef VP_LEVEL
+#define VP_LEVEL 1      /* the compaction's level (outputs go to VP_LEVEL + 1) */
+#endif
 #ifndef VP_ENV
 #define VP_ENV 1        /* other threads move last_sequence / snapshots while the mutex is free */
 #endif
@@ -260,27 +263,18 @@ env_act(void) {
 /* ---- hooks -------------------------------------------------------------- */
 static void
 ghost_save(void) {
-  int lv = comp.level + 1, i;
-  for (i = 0; i < LDB_NUM_LEVELS; i++) {
-    if (i == lv) {
-      gh_micros = db.stats[i].micros;
-      gh_read = db.stats[i].bytes_read;
-      gh_written = db.stats[i].bytes_written;
-    }
-  }
+  gh_micros = db.stats[VP_LEVEL + 1].micros;
+  gh_read = db.stats[VP_LEVEL + 1].bytes_read;
+  gh_written = db.stats[VP_LEVEL + 1].bytes_written;
   gh_bg_error = db.bg_error;
   gh_next_file = vs.next_file_number;
 }
 
 static void
 ghost_check(void) {
-  int lv = comp.level + 1, i;
-  for (i = 0; i < LDB_NUM_LEVELS; i++) {
-    if (i == lv)
-      VP_ASSERT(gh_micros == db.stats[i].micros && gh_read == db.stats[i].bytes_read &&
-                gh_written == db.stats[i].bytes_written,
-                "compaction statistics are written only under the mutex");
-  }
+  VP_ASSERT(gh_micros == db.stats[VP_LEVEL + 1].micros && gh_read == db.stats[VP_LEVEL + 1].bytes_read &&
+            gh_written == db.stats[VP_LEVEL + 1].bytes_written,
+            "compaction statistics are written only under the mutex");
   VP_ASSERT(gh_bg_error == db.bg_error, "bg_error is written only under the mutex");
   VP_ASSERT(gh_next_file == vs.next_file_number, "file numbers are allocated only under the mutex");
 }
@@ -899,8 +893,7 @@ harness(void) {
   had_snap = snap0_held || snap1_held;
 
   /* the compaction */
-  level = vp_int();
-  VP_ASSUME(level >= 0 && level + 1 < LDB_NUM_LEVELS);
+  level = VP_LEVEL;
   comp.level = level;
   comp.max_output_file_size = vp_u64();
   in_file0.file_size = vp_u64();
